@@ -7,6 +7,7 @@ import (
 	"fmt"
 	"strings"
 	"sync/atomic"
+	"time"
 
 	"github.com/internetarchive/Zeno/internal/pkg/controler/pause"
 )
@@ -110,6 +111,10 @@ func init() {
 					workers = append(workers, w)
 				}
 				return show()
+			case "backpressure":
+				return pauseBackPressure(num(in, "rounds", 8))
+			case "exitduringresume":
+				return pauseExitDuringResume(num(in, "rounds", 8))
 			case "pause":
 				launch(func() { pause.Pause() })
 				return show()
@@ -123,4 +128,114 @@ func init() {
 			return "harness-error bad-op"
 		}
 	})
+}
+
+// pauseBackPressure: a two-stage pipeline with the loop shape of the real stage workers. The
+// upstream worker is blocked handing a seed to the downstream worker (a send that only a stop can
+// interrupt) while its pause signal is still unread; the downstream worker has acknowledged the
+// pause. Resume must still return: it has to take the downstream acknowledgement first.
+func pauseBackPressure(rounds int) string {
+	for r := 0; r < rounds; r++ {
+		pause.VerifReset()
+		ctx, cancel := context.WithCancel(context.Background())
+		ch := make(chan int) // unbuffered stage channel
+		var upAck, downAck atomic.Bool
+		ready := make(chan struct{}, 2)
+		go func() { // upstream
+			chans := pause.Subscribe()
+			defer pause.Unsubscribe(chans)
+			ready <- struct{}{}
+			for {
+				select {
+				case <-ctx.Done():
+					return
+				case <-chans.PauseCh:
+					upAck.Store(true)
+					select {
+					case chans.ResumeCh <- struct{}{}:
+					case <-ctx.Done():
+						return
+					}
+					upAck.Store(false)
+				default:
+					select { // hand the seed over: only a stop interrupts this
+					case <-ctx.Done():
+						return
+					case ch <- 1:
+					}
+				}
+			}
+		}()
+		go func() { // downstream
+			chans := pause.Subscribe()
+			defer pause.Unsubscribe(chans)
+			ready <- struct{}{}
+			for {
+				select {
+				case <-ctx.Done():
+					return
+				case <-chans.PauseCh:
+					downAck.Store(true)
+					select {
+					case chans.ResumeCh <- struct{}{}:
+					case <-ctx.Done():
+						return
+					}
+					downAck.Store(false)
+				case <-ch:
+				}
+			}
+		}()
+		<-ready
+		<-ready
+		time.Sleep(2 * time.Millisecond)
+		pause.Pause()
+		// wait until the downstream worker waits for resume (the upstream one is then stuck in its send,
+		// or has acknowledged too — both are fine)
+		deadline := time.Now().Add(2 * time.Second)
+		for !downAck.Load() && time.Now().Before(deadline) {
+			time.Sleep(200 * time.Microsecond)
+		}
+		done := make(chan struct{})
+		go func() { pause.Resume(); close(done) }()
+		select {
+		case <-done:
+		case <-time.After(2 * time.Second):
+			cancel()
+			return fmt.Sprintf("bad round=%d Resume() did not return within 2s: upstream worker blocked handing over a seed (pause signal unread), downstream worker waiting for resume", r)
+		}
+		cancel()
+	}
+	return "ok"
+}
+
+// pauseExitDuringResume: the pipeline is paused while a worker is busy (its pause signal unread), a
+// Resume is already waiting for it, then the worker is stopped and leaves without acknowledging.
+func pauseExitDuringResume(rounds int) string {
+	for r := 0; r < rounds; r++ {
+		pause.VerifReset()
+		ctx, cancel := context.WithCancel(context.Background())
+		ready := make(chan struct{})
+		exited := make(chan struct{})
+		go func() {
+			chans := pause.Subscribe()
+			defer close(exited)
+			defer pause.Unsubscribe(chans)
+			close(ready)
+			<-ctx.Done() // busy with a long fetch, then told to stop: it never reads PauseCh
+		}()
+		<-ready
+		pause.Pause()
+		done := make(chan struct{})
+		go func() { pause.Resume(); close(done) }()
+		time.Sleep(2 * time.Millisecond)
+		cancel()
+		<-exited
+		select {
+		case <-done:
+		case <-time.After(2 * time.Second):
+			return fmt.Sprintf("bad round=%d Resume() still blocked 2s after the worker it waited for had exited", r)
+		}
+	}
+	return "ok"
 }
